@@ -2,6 +2,7 @@
 (also inside lists) and every ndarray argument must be bitwise unchanged after the call (also when it raises), every TT
 found in the return value must satisfy the representation invariant.  Property C06 (and the 'inputs unchanged'
 clauses of C07/C09/C11/C16/C17)."""
+import copy
 import inspect
 import types
 
@@ -10,6 +11,44 @@ import numpy as np
 from . import core, probe
 from .contracts_tt import _find_tts, check_returned
 from .dense import Snap, tt_consistent, shape_sig_cores, MAX_DENSE, dense_size
+
+
+def _is_plain(v, depth=0):
+    """lists/tuples (nested) of Python/NumPy scalars, None, strings: option values such as rank lists, step-size lists, index lists"""
+    if v is None or isinstance(v, (bool, int, float, complex, str, np.generic)):
+        return True
+    if isinstance(v, (list, tuple)) and depth < 4 and len(v) <= 4096:
+        return all(_is_plain(w, depth + 1) for w in v)
+    return False
+
+
+def snapshot_plain(args, kwargs):
+    out = []
+    for key, v in list(enumerate(args)) + list(kwargs.items()):
+        if isinstance(v, list) and _is_plain(v):
+            out.append((key, v, copy.deepcopy(v)))
+    return out
+
+
+def check_plain(api, plain, raised=False):
+    """a list-valued option (requested ranks, step sizes, index sets ...) is the caller's: the call must not rewrite it.  Reported
+    under the property being checked: what the caller 'requested' in a later call with the same list is otherwise not what they wrote."""
+    c = core.ctx()
+    for (key, v, before) in plain or []:
+        try:
+            same = _plain_equal(v, before)
+        except Exception:
+            same = False
+        c.check(api, 'list_argument_unchanged', same, ['arg=%s' % key] + (['raised'] if raised and not same else []),
+                {'before': before, 'after': v} if not same else None)
+
+
+def _plain_equal(a, b):
+    if isinstance(a, (list, tuple)) or isinstance(b, (list, tuple)):
+        return type(a) is type(b) and len(a) == len(b) and all(_plain_equal(x, y) for x, y in zip(a, b))
+    if isinstance(a, float) and isinstance(b, float) and a != a and b != b:
+        return True
+    return type(a) is type(b) and a == b
 
 
 class ApiImmut(probe.Contract):
@@ -37,7 +76,7 @@ class ApiImmut(probe.Contract):
                 for w in v:
                     if isinstance(w, np.ndarray) and w.size <= 8 * MAX_DENSE:
                         arrs.append((w, w.copy()))
-        return {'snaps': snaps, 'arrs': arrs}
+        return {'snaps': snaps, 'arrs': arrs, 'plain': snapshot_plain(args, kwargs)}
 
     def _immut(self, st, raised=False):
         c = core.ctx()
@@ -55,6 +94,7 @@ class ApiImmut(probe.Contract):
         for (v, before) in st['arrs']:
             same = v.shape == before.shape and np.array_equal(v, before, equal_nan=True)
             c.check(self.api, 'ndarray_argument_unchanged', same, ['raised'] if raised and not same else [], None, prop='C06')
+        check_plain(self.api, st.get('plain'), raised)
 
     def exc(self, st, e, args, kwargs):
         if st is not None:
